@@ -52,7 +52,8 @@ RelDiff(r, name, t, P) ==
           \cup (IF G!WithinUnits(p.m, v, P, 1) THEN {} ELSE {<<"within", name, P, X, Grade(p.m, v, P)>>})
           \cup (IF G!NoDigitLost(p, v, P) THEN {} ELSE {<<"lost", name, P, X, 0>>})
 
-(* the same value as a later item of a response ("tr2") and through SCPI_NumberToStr ("tn"), where recorded *)
+(* the same value as a later item of a response, written while a second, independent context formats numbers *)
+(* of its own in every write ("tr2"), and through SCPI_NumberToStr ("tn"), where recorded                     *)
 More(r) == (IF "tr2" \in DOMAIN r THEN {<<"tr2", r.tr2, Prec(r)>>} ELSE {}) \cup (IF "tn" \in DOMAIN r THEN {<<"tn", r.tn, Prec(r)>>} ELSE {})
            \cup (IF "tsx" \in DOMAIN r THEN {<<"tsx", r.tsx, Prec(r)>>} ELSE {})       \* helper with a buffer the text fills exactly
            \cup (IF "tsb" \in DOMAIN r THEN {<<"tsb", r.tsb, Prec(r)>>} ELSE {})       \* helper with a 256-byte buffer
